@@ -69,6 +69,19 @@ class BfeParser(LParser):
             return ("mutref", self.parse_unary())
         return LParser.parse_unary(self)
 
+    def parse_primary(self):
+        # `Self { state }` / `Self { state: e }` / `Tip5 { state }`: the newtype-over-array struct literal
+        if self.peek()[0] == "id" and self.peek()[1] in ("Self", "Tip5") and self.peek(1) == ("op", "{") \
+                and self.peek(2) == ("id", "state") and self.peek(3)[1] in ("}", ":"):
+            self.next(); self.next(); self.next()
+            if self.accept(":"):
+                e = self.parse_expr()
+            else:
+                e = ("path", ["state"])
+            self.expect("}")
+            return ("structlit", e)
+        return LParser.parse_primary(self)
+
     def parse_postfix(self):
         # slices `a[..k]`, `a[i..j]` (only as receivers of copy_from_slice / try_into, checked by the emitter)
         e = self.parse_primary()
@@ -280,7 +293,7 @@ class BfeEmitter(LoopEmitter):
             raise Unsupported(f"Self::{name}: translated `{name}` belongs to {owner}")
         if len(path) == 2 and path[0] in OWNER_OF_PREFIX and owner != OWNER_OF_PREFIX[path[0]]:
             raise Unsupported(f"{path[0]}::{name}: translated `{name}` belongs to {owner}")
-        if len(path) == 1 and owner is not None and not sig.get("free"):
+        if len(path) == 1 and owner is not None and not sig.get("free") and "::" not in name:
             raise Unsupported(f"{name}: translated `{name}` is an associated function of {owner}")
         return name
 
@@ -317,6 +330,13 @@ class BfeEmitter(LoopEmitter):
         exp = self.resolve(exp)
         if k == "mutref":
             return self.emit(e[1], env, exp)
+        if k == "structlit":
+            st = ("array", "bfe")
+            if self.self_ty_override != st:
+                raise Unsupported("struct literal outside an impl of the state type")
+            t, ty, ok = self.emit(e[1], env, st)
+            self.unify(ty, st, "struct literal")
+            return t, st, ok
         if k == "path" and len(e[1]) == 2:
             a, b = e[1]
             if b in CTX["bfe_consts"] and (a == "BFieldElement" or (a == "Self" and self.self_ty_override == "bfe")):
@@ -489,6 +509,19 @@ class BfeFnTranslator(FnTranslator):
             return node
         stmts = map_ast(stmts, norm)
 
+        def qualify(node):
+            # `Self::new(..)` inside `impl Tip5` when the registry has the qualified key `Tip5::new`
+            if node and node[0] == "call" and len(node[1]) == 2:
+                owner = CTX["owner"] if node[1][0] == "Self" else node[1][0]
+                q = f"{owner}::{node[1][1]}"
+                if q in self.em.fns or q in self.em.pfns:
+                    return ("call", [q], node[2])
+            return node
+        stmts = map_ast(stmts, qualify)
+        # `match` on a field-less enum becomes an if-chain here (so that the syntactic analyses of the base module see
+        # the loops / calls inside the arms); the scrutinee's type is checked when the comparisons are emitted
+        stmts = map_ast(stmts, lambda node: self.desugar_match(node) if node and node[0] == "match" else node)
+
         def fix(node):
             if node and node[0] == "mcallstmt" and node[1][0] == "call":
                 e = node[1]
@@ -659,7 +692,7 @@ class BfeFnTranslator(FnTranslator):
             if kind == "copyslice":
                 return self.do_copyslice(st, stmts, i, env, k, ctl)
             if kind == "match":
-                return self.do_match(st, stmts, i, env, k, ctl)
+                raise Unsupported("match statement that was not desugared")
             if kind == "assign" and ASSIGN_OPS[st[2]] is not None:
                 # compound assignment on a BFieldElement: only when the `*Assign` impl is `*self = *self op rhs`
                 saved = em.dirty
@@ -753,15 +786,17 @@ class BfeFnTranslator(FnTranslator):
         bt, bok = self.seq(stmts, i + 1, dict(env), k, ctl)
         return self.let_(t, val, bt), self.let_ok(t, val, ok, bok)
 
-    def do_match(self, st, stmts, i, env, k, ctl):
+    def desugar_match(self, st):
         """`match x { A => {..}, B => {..} }` on a field-less enum: an if-chain on the variant index"""
-        em = self.em
         _, scrut, arms = st
-        t, ty, ok = em.emit(scrut, env, None)
-        ty = em.resolve(ty)
-        if not (isinstance(ty, tuple) and ty[0] == "enum"):
-            raise Unsupported("match on something that is not a field-less enum")
+        names = [path[-1] for path, _ in arms]
+        cands = [en for en, vs in CTX["enums"].items() if all(n in vs for n in names)]
+        if len(cands) != 1:
+            raise Unsupported("match on something that is not a known field-less enum")
+        ty = ("enum", cands[0])
         variants = CTX["enums"][ty[1]]
+        if len(variants) < 2:
+            raise Unsupported("match on a single-variant enum")
         seen = []
         for path, body in arms:
             v = path[-1]
@@ -781,11 +816,7 @@ class BfeFnTranslator(FnTranslator):
             else:
                 cond = ("bin", "==", scrut, ("path", [ty[1], path[-1]]))
                 chain = [("if", cond, body, chain)]
-        if len(arms) == 1:
-            new = list(chain)
-        else:
-            new = chain
-        return self.seq(stmts[:i] + new + stmts[i + 1:], i, env, k, ctl)
+        return chain[0]
 
 
 # enum values compare with `==` on their variant index
@@ -886,6 +917,7 @@ def run_group(status, changed, out_name, header_src, imports, specs, read_src, t
         info = {}
         consts = kw.pop("consts", {})
         free = kw.pop("free", False)
+        kw_key = kw.pop("key", None)       # registry key when the bare name is taken by another type's function
         try:
             text, ptys, rty, partial = L.translate_fn(src, rname, lname, rel, consts, tfns, pfns, fuel, self_ty=self_ty,
                                                       translator_cls=BfeFnTranslator, info=info, **kw)
@@ -896,10 +928,13 @@ def run_group(status, changed, out_name, header_src, imports, specs, read_src, t
             status["failed"][key] = f"loops: internal: {type(ex).__name__}: {ex}"
             continue
         out.append(text)
-        (pfns if partial else tfns)[rname] = (lname, ptys, rty)
+        key_name = kw_key or rname
+        (pfns if partial else tfns)[key_name] = (lname, ptys, rty)
         info["owner"] = owner
         info["free"] = free
-        CTX["sigs"][rname] = info
+        if "::" in key_name:
+            info["method"] = False
+        CTX["sigs"][key_name] = info
         status["translated"][lname] = {"source": rel, "sha256": hashlib.sha256(text.encode()).hexdigest()[:16],
                                        "loops": True, "fuel": fuel}
     for lname, rname, fuel, rel, owner, self_ty, kw in outside:
@@ -908,6 +943,7 @@ def run_group(status, changed, out_name, header_src, imports, specs, read_src, t
         kw = dict(kw)
         consts = kw.pop("consts", {})
         kw.pop("free", None)
+        kw.pop("key", None)
         try:
             L.translate_fn(src, rname, lname, rel, consts, tfns, pfns, fuel, self_ty=self_ty,
                            translator_cls=BfeFnTranslator, **kw)
@@ -1019,7 +1055,12 @@ def run(status, changed, fns, read_src):
         ("tip5_round", "round", L.DEFAULT_FUEL, tip5_rel, T, st, tkw()),
         ("tip5_permutation", "permutation", L.DEFAULT_FUEL, tip5_rel, T, st, tkw()),
         ("tip5_trace", "trace", L.DEFAULT_FUEL, tip5_rel, T, st, tkw()),
+        ("tip5_new", "new", L.DEFAULT_FUEL, tip5_rel, T, st, tkw(key="Tip5::new")),
+        ("tip5_hash_10", "hash_10", L.DEFAULT_FUEL, tip5_rel, T, st, tkw()),
+    ]
+    tip5_outside = [
+        ("tip5_hash_pair", "hash_pair", L.DEFAULT_FUEL, tip5_rel, T, st, tkw()),
     ]
     BfeParser.STRUCT_ARRAYS = dict(LParser.STRUCT_ARRAYS)
     run_group(status, changed, "Tip5Loops", tip5_rel, ["TF.Gen.Consts", "TF.Gen.Tip5", "TF.Gen.BFieldLoops"], tip5_specs, read_src,
-              tfns, pfns, preamble=preamble)
+              tfns, pfns, preamble=preamble, outside=tip5_outside)
